@@ -36,27 +36,43 @@ Unions ==
     [] Family = "mixed" -> {[vars |-> s, nullable |-> nl, disc |-> NoDisc] : s \in UNION {InjSeqs(MixedTypes, n) : n \in Sizes}, nl \in BOOLEAN}
     [] Family = "disc"  -> UNION {{[vars |-> s, nullable |-> FALSE, disc |-> d] : s \in InjSeqs(ObjTypes2, n), d \in Discs(n)} : n \in Sizes}
 
-\* ---- conforming instances of a variant (canonical: exactly its declared keys, every subset of the optional ones)
+\* ---- conforming instances of a variant (canonical: exactly its declared keys, every subset of the optional ones).
+\* TLC cannot build a SET of trees of different JSON types (it would have to compare them), so instances are
+\* enumerated as homogeneous descriptors [kind, keys, tag] and turned into trees one at a time.
 ObjPayload(K, dp, tag) ==
   O(SelectSeq(<<KV("a", S("va")), KV("b", S("vb")), KV("c", S("vc"))>>, LAMBDA e : e.k \in K)
     \o (IF dp = "-" THEN <<>> ELSE <<KV(dp, S(tag))>>))
 
-Instances(T, dp, tag) ==
-  CASE T.k = "obj"   -> {ObjPayload(WithMode(T, "req") \cup X, dp, tag) : X \in SUBSET WithMode(T, "opt")}
-    [] T.k = "str"   -> {S("va"), S("5")}
-    [] T.k = "int"   -> {I(0), I(7)}
-    [] T.k = "float" -> {F(15), F(20)}
-    [] T.k = "bool"  -> {B(TRUE), B(FALSE)}
-    [] T.k = "list"  -> IF T.of = "str" THEN {L(<<>>), L(<<S("va")>>), L(<<S("5")>>)} ELSE {L(<<>>), L(<<I(7)>>)}
-    [] T.k = "map"   -> IF T.of = "str" THEN {O(<<>>), O(<<KV("x", S("va"))>>), O(<<KV("a", S("va"))>>)}
-                        ELSE {O(<<KV("x", I(7))>>)}
-    [] T.k = "anymap" -> {O(<<KV("x", I(7))>>), O(<<KV("a", S("va")), KV("x", B(TRUE))>>)}
+ObjId(K, tag) == [kind |-> "obj", keys |-> K, tag |-> tag]
+Lit(x)        == [kind |-> "lit", keys |-> {}, tag |-> x]
+LitTree(x) ==
+  CASE x = "s:va" -> S("va")  [] x = "s:5" -> S("5")
+    [] x = "i:0" -> I(0)      [] x = "i:7" -> I(7)
+    [] x = "f:1.5" -> F(15)   [] x = "f:2.0" -> F(20)
+    [] x = "b:T" -> B(TRUE)   [] x = "b:F" -> B(FALSE)
+    [] x = "l:" -> L(<<>>)    [] x = "l:va" -> L(<<S("va")>>)  [] x = "l:5" -> L(<<S("5")>>)  [] x = "l:i7" -> L(<<I(7)>>)
+    [] x = "m:" -> O(<<>>)    [] x = "m:x=va" -> O(<<KV("x", S("va"))>>)  [] x = "m:a=va" -> O(<<KV("a", S("va"))>>)
+    [] x = "m:x=7" -> O(<<KV("x", I(7))>>)  [] x = "m:a=va,x=T" -> O(<<KV("a", S("va")), KV("x", B(TRUE))>>)
+    [] x = "null" -> Null
+Tree(id, dp) == IF id.kind = "obj" THEN ObjPayload(id.keys, IF id.tag = "-" THEN "-" ELSE dp, id.tag) ELSE LitTree(id.tag)
 
-Payloads(un) ==
+Instances(T, tag) ==
+  CASE T.k = "obj"   -> {ObjId(WithMode(T, "req") \cup X, tag) : X \in SUBSET WithMode(T, "opt")}
+    [] T.k = "str"   -> {Lit("s:va"), Lit("s:5")}
+    [] T.k = "int"   -> {Lit("i:0"), Lit("i:7")}
+    [] T.k = "float" -> {Lit("f:1.5"), Lit("f:2.0")}
+    [] T.k = "bool"  -> {Lit("b:T"), Lit("b:F")}
+    [] T.k = "list"  -> IF T.of = "str" THEN {Lit("l:"), Lit("l:va"), Lit("l:5")} ELSE {Lit("l:"), Lit("l:i7")}
+    [] T.k = "map"   -> IF T.of = "str" THEN {Lit("m:"), Lit("m:x=va"), Lit("m:a=va")} ELSE {Lit("m:x=7")}
+    [] T.k = "anymap" -> {Lit("m:x=7"), Lit("m:a=va,x=T")}
+
+\* plus payloads that (mostly) conform to no variant: an object with an unknown key, and for discriminated unions a
+\* body without the discriminator property - only C14.not_a_variant is judged on those
+PayloadIds(un) ==
   LET n == Len(un.vars) IN
   IF un.disc.mode = "none"
-    THEN UNION {Instances(un.vars[i], "-", "-") : i \in 1..n} \cup (IF un.nullable THEN {Null} ELSE {})
-    ELSE UNION {Instances(un.vars[i], un.disc.prop, Tag(j)) : i \in 1..n, j \in 1..n}
+    THEN UNION {Instances(un.vars[i], "-") : i \in 1..n} \cup (IF un.nullable THEN {Lit("null")} ELSE {}) \cup {Lit("m:x=7")}
+    ELSE UNION {Instances(un.vars[i], Tag(j)) : i \in 1..n, j \in 1..n} \cup {Lit("m:x=7"), ObjId({"a"}, "-")}
 
 Case(p, un) ==
   LET o == ImplChoose(p, un)
@@ -70,7 +86,7 @@ Init == u \in Unions /\ done = FALSE
 Emit == /\ ~done
         /\ done' = TRUE
         /\ UNCHANGED u
-        /\ LET ps == SetToSeq(Payloads(u))
-           IN PrintT("SCEN " \o ToJson([u |-> u, cases |-> [i \in 1..Len(ps) |-> Case(ps[i], u)]]))
+        /\ LET ps == SetToSeq(PayloadIds(u))
+           IN PrintT("SCEN " \o ToJson([u |-> u, cases |-> [i \in 1..Len(ps) |-> Case(Tree(ps[i], DiscProp(u)), u)]]))
 Spec == Init /\ [][Emit]_<<u, done>>
 =============================================================================
